@@ -19,7 +19,9 @@ import time
 
 VERIF = os.path.dirname(os.path.dirname(os.path.abspath(__file__)))
 REPO = os.environ.get("PYTYPE_REPO", "/repo")
-LEAN_DIR = os.path.join(VERIF, "lean")
+# VERIF_LEAN_DIR: a private copy of lean/ (sources + .lake) for runs against another tree (harness/seeded.py), so that
+# their regenerated tables and rebuilt proofs never touch the workspace the registered checks use
+LEAN_DIR = os.environ.get("VERIF_LEAN_DIR") or os.path.join(VERIF, "lean")
 BUILD = os.path.join(VERIF, "build")
 EVIDENCE = os.path.join(VERIF, "evidence")
 REPLAY = os.path.join(BUILD, "replay")
@@ -138,7 +140,8 @@ def load_pytype(need_ext=True):
 # Lean side
 # ----------------------------------------------------------------------------
 def _lake(args, timeout=3000):
-  with open(os.path.join(BUILD, ".lake.lock"), "w") as lk:
+  lock = os.path.join(BUILD, ".lake.lock") if not os.environ.get("VERIF_LEAN_DIR") else LEAN_DIR.rstrip("/") + ".lock"
+  with open(lock, "w") as lk:
     fcntl.flock(lk, fcntl.LOCK_EX)
     return subprocess.run(["lake"] + args, cwd=LEAN_DIR, stdout=subprocess.PIPE,
                           stderr=subprocess.STDOUT, text=True, timeout=timeout)
